@@ -19,7 +19,7 @@ RULE = ("hostile archives from the reference writer: entries (name x kind) with 
         "absolute inside, ../<dest name>/a, ../<dest name>, .//<absolute>, .., ., ...} and kinds file / directory / symlink with targets over {., .., ../.., a, b, a/.., absolute inside, "
         "absolute outside, /, a/../x (through a name a later entry turns into a link) ...}; ALL archives of 1 and 2 entries over the full alphabet, all 3-entry archives over a reduced "
         "alphabet and over the respelled alphabet (names a, ./a, b, ./b: a later entry under another spelling replaces the earlier one on disk), random 4-5 entry "
-        "archives; destination absolute / relative / None(cwd), empty or pre-populated; opened by path or stream; single folder or one folder per "
+        "archives; ~45-entry chains whose physical directory lies beyond PATH_MAX while every stored name is short (links entered through a short path, then a link climbing out); destination absolute / relative / None(cwd), empty or pre-populated; opened by path or stream; single folder or one folder per "
         "entry; link chains with one folder per entry on the parallel path under a controlled scheduler (workers parked at mkdir/open/symlink, released in random "
         "order); two-call histories extract(first two entries), reset(), extract(third entry) (1-entry archives: every destination form x pre-populated or not; larger families: configurations rotate over batches of 250 in the quick tier, "
         "2-entry and respelled families run under every destination form in the thorough tier). Oracle: (1) snapshot (type, mode, size, mtime, link text, SHA-256) of the scratch area outside the destination is unchanged; "
@@ -100,6 +100,11 @@ def cases(rng, tier):
     hist = hist[: (150 if tier == "quick" else 1500)]
     for i in range(0, len(hist), 50):
         out.append({"kind": "history", "archives": hist[i : i + 50], "label": "extract-reset-extract", "dest": modes[(i // 50) % 3], "prepop": False, "open": "stream" if (i // 50) % 2 else "path", "perfile": False})
+    # beyond PATH_MAX: a physical directory deeper than 4096 bytes, reached through a short path of links; lstat() on the
+    # long spelling fails there while the kernel, entering through the short one, follows every link (found by a bug hunt)
+    longs = [_long_chain(L, last) for L in (250, 120) for last in (("F", None), ("D", None), ("L", "{OUT}"))]
+    for i, m in enumerate(modes):
+        out.append({"archives": longs, "dest": m, "prepop": False, "open": "path" if i == 1 else "stream", "perfile": False, "label": "beyond-PATH_MAX", "sig": "long-chain"})
     nrand = 2000 if tier == "quick" else 100000
     rnd = []
     for _ in range(nrand):
@@ -107,6 +112,27 @@ def cases(rng, tier):
         rnd.append([rng.choice(full) for _ in range(k)])
     add(rnd, "random-4-5")
     return out
+
+
+def _long_chain(L, last):
+    """dir D1 (L characters); link L1 -> D1; for i = 2..n: file L(i-1)/Di/f, link Li -> L(i-1)/Di (every name the library
+    sees stays short, the physical directory P = dest/D1/../Dn is longer than PATH_MAX); a directory k/../k (n levels); link
+    k/../k/L -> ../(n times)Ln (= P, inside); link k/../k/L/b -> '..' (inside); link k/../k/L/x -> b/../(n times) (lexically
+    under k/, physically the parent of the destination); entries created through x."""
+    n = 4096 // (L + 1) + 2
+    comp = [("%02d" % i) + chr(97 + i % 26) * (L - 2) for i in range(n + 1)]
+    arc = [[comp[1], "D", None], ["L1", "L", comp[1]]]
+    for i in range(2, n + 1):
+        arc.append(["L%d/%s/f" % (i - 1, comp[i]), "F", None])
+        arc.append(["L%d" % i, "L", "L%d/%s" % (i - 1, comp[i])])
+    k = "/".join(["k"] * n)
+    arc.append([k, "D", None])
+    arc.append([k + "/L", "L", "../" * n + "L%d" % n])
+    arc.append([k + "/L/b", "L", ".."])
+    arc.append([k + "/L/x", "L", "b/" + "/".join([".."] * n)])
+    arc.append([k + "/L/x/x", last[0], last[1]])
+    arc.append([k + "/L/x/newname", last[0], last[1]])
+    return arc
 
 
 def worker_init():
@@ -288,7 +314,7 @@ def run_case(case):
             if rep["outside"] and not df:
                 obs["attempts_outside_without_effect"] = obs.get("attempts_outside_without_effect", 0) + 1
                 rep["outside"] = jail.corroborated(rep["outside"])
-            sig = _sig(arc)
+            sig = case.get("sig") or _sig(arc)
             cells.add("%s|%s|%s|%s" % (case["label"], sig if len(arc) <= 2 else sig[:60], case["dest"], status))
             if df or rep["outside"]:
                 what = []
@@ -297,8 +323,9 @@ def run_case(case):
                 if rep["outside"]:
                     what.append("audit: " + "; ".join("%s(%s) -> %s" % (e["event"], e["path"][-40:], os.path.relpath(e["resolves_to"], root) if e["resolves_to"].startswith(root) else e["resolves_to"]) for e in rep["outside"][:3]))
                 first = (df[0][0] if df else rep["outside"][0]["event"])
-                viol.append({"key": "escape/%s/%s" % (first, sig), "what": "archive %r into %s destination (%s): %s" % (arc, case["dest"], status, " | ".join(what)),
-                             "archive": arc})
+                viol.append({"key": "escape/%s/%s" % (first, sig), "what": "archive %s into %s destination (%s): %s" % (
+                    repr(arc) if len(repr(arc)) < 600 else "of %d entries (%s: %s)" % (len(arc), case["label"], _long_chain.__doc__.split(";")[0][:120]), case["dest"], status, " | ".join(what)),
+                             "archive": arc if len(repr(arc)) < 600 else case["label"]})
                 # surroundings are dirty now: rebuild
                 parent, OUT = _mkscratch(root)
                 D = os.path.join(parent, "dest")
@@ -309,7 +336,7 @@ def run_case(case):
                         os.chmod(dp, 0o700)
                     except OSError:
                         pass
-    sample = {"label": case["label"], "dest": case["dest"], "prepopulated": case["prepop"], "open": case["open"], "first_archives": case["archives"][:2]}
+    sample = {"label": case["label"], "dest": case["dest"], "prepopulated": case["prepop"], "open": case["open"], "first_archives": [a for a in case["archives"][:2] if len(repr(a)) < 600]}
     if viol:
         seen = {}
         for v in viol:
